@@ -129,6 +129,20 @@ def replay(ctx, rec):
     return CHECKS[rec['check']](rec['input'])
 
 
+def deep_scope(logic, atoms, stride):
+    """Every stride-th formula of the logic with exactly 3 operators over the atoms."""
+    leaves = tuple(('ap', a) for a in atoms)
+    if logic == 'PL':
+        return fm.enum_strided(fm.PL_UN, fm.PL_BIN, leaves + (fm.TRUE, fm.FALSE), 3, max(1, stride // 4))
+    if logic == 'CTL':
+        return fm.enum_strided(fm.CTL_UN, fm.CTL_BIN, leaves, 3, stride * 3)
+    if logic == 'LTL':
+        paths = fm.enum_strided(fm.LTL_UN, fm.LTL_BIN, leaves, 3, stride)
+        return paths + [('A', g) for g in paths[::2]]
+    un = fm.LTL_UN + [('A', lambda f: ('A', f)), ('E', lambda f: ('E', f))]
+    return fm.enum_strided(un, fm.LTL_BIN, leaves, 3, stride)
+
+
 def enum_shard(st, shard, nshards, payload):
     block = payload['block']
     bidx = -1
@@ -144,15 +158,26 @@ def enum_shard(st, shard, nshards, payload):
                 if bidx % nshards != shard:
                     continue
                 if b0 == 0:
-                    # whole-scope key behaviour: all trees distinct -> all keys distinct
+                    # whole-scope key behaviour: all trees distinct -> all keys distinct; the scope
+                    # is widened here by a stride of the formulas with exactly 3 operators
                     st.evaluations += 1
+                    wide = list(forms) + deep_scope(logic, atoms, payload.get('deep_stride', 11))
+                    wobjs = objs + [fm.to_lib(t, L) for t in wide[len(forms):]]
+                    st.add_extra('formulas_in_key_scope', len(wide))
                     seen = {}
-                    for i in range(len(forms)):
-                        j = seen.setdefault(objs[i], i)
+                    for i in range(len(wide)):
+                        j = seen.setdefault(wobjs[i], i)
                         if j != i:
-                            inp = {'logic': logic, 'f': forms[j], 'g': forms[i]}
+                            inp = {'logic': logic, 'f': wide[j], 'g': wide[i]}
                             st.failure = check_pair(inp) or Failure(
                                 'pair', inp, 'distinct keys', 'collide in a dict')
+                            return
+                    for i in range(len(forms), len(wide), 3):
+                        st.evaluations += 1
+                        f = check_pair({'logic': logic, 'f': wide[i], 'g': wide[i], 'raw': True}) or \
+                            check_clone({'logic': logic, 'f': wide[i]})
+                        if f is not None:
+                            st.failure = f
                             return
                 idxs = order[b0:b0 + block]
                 # the block plus a stride of the rest, so that far pairs are sampled too
@@ -210,7 +235,8 @@ def run(ctx):
                 'operators over atom pairs from the keyword-hugging identifier pool (reserved words '
                 'of the logic excluded); formulas sorted by printed length and cut into blocks: all '
                 'ordered pairs inside a block plus a stride of far pairs; every formula against an '
-                'independently built copy (explicit vs raw str/bool leaves).  Oracle: tree identity '
+                'independently built copy (explicit vs raw str/bool leaves); the whole scope plus a stride of the '
+                'formulas with exactly 3 operators must give pairwise distinct dict keys.  Oracle: tree identity '
                 '(harness tuples) vs ==, !=, hash, set and dict behaviour, symmetry, reflexivity; '
                 'clone(): equal, same tree, no node object and no children list shared; Bool vs '
                 'Python bool in both argument orders; random triples for transitivity.  '
@@ -228,7 +254,7 @@ def run(ctx):
             sets += [(av[i], av[i + 1]) for i in range(4, len(av) - 1, 5)]
         atomsets[logic] = sets
     ctx.scopes = ['formulas with <= 2 operators x %d atom pairs per logic; blocks of %d' % (
-        len(atomsets['CTLS']), ctx.pick(100, 400))]
+        len(atomsets['CTLS']), ctx.pick(64, 400))]
     ctx.exhaustive = True
     st = ctx.stats
     for logic in LOGICS:
@@ -237,7 +263,8 @@ def run(ctx):
         if f is not None:
             ctx.violation(f)
             return
-    f = core.run_sharded(ctx, enum_shard, {'k': 2, 'atomsets': atomsets, 'block': ctx.pick(100, 400)})
+    f = core.run_sharded(ctx, enum_shard, {'k': 2, 'atomsets': atomsets, 'block': ctx.pick(64, 400),
+                                           'deep_stride': ctx.pick(11, 2)})
     if f is not None:
         ctx.violation(f)
         return
